@@ -34,7 +34,7 @@ Proof. apply Z.testbit_neg_r. Qed.
 (* rewrite every testbit of a bitwise expression into booleans; [i] is the bit index *)
 Ltac gp_bits i :=
   repeat first
-    [ rewrite Z.land_spec | rewrite Z.lor_spec | rewrite Z.lxor_spec | rewrite Z.ldiff_spec
+    [ rewrite Z.shiftl_1_l | rewrite Z.land_spec | rewrite Z.lor_spec | rewrite Z.lxor_spec | rewrite Z.ldiff_spec
     | rewrite gp_ones_bit by lia | rewrite gp_pow2_bit by lia
     | rewrite gp_lnot_bit by lia ].
 
@@ -50,6 +50,15 @@ Ltac gp_bool :=
          | |- context [?x <? ?y] => destruct (Z.ltb_spec x y)
          | |- context [?x <=? ?y] => destruct (Z.leb_spec x y)
          end; simpl; try reflexivity; try lia; try discriminate.
+
+(* closes propositional goals about bits: case analysis on every testbit / comparison *)
+Ltac gp_tauto :=
+  repeat match goal with
+         | |- context [Z.testbit ?a ?i] => destruct (Z.testbit a i)
+         | |- context [?x =? ?y] => destruct (Z.eqb_spec x y)
+         | |- context [?x <? ?y] => destruct (Z.ltb_spec x y)
+         | |- context [?x <=? ?y] => destruct (Z.leb_spec x y)
+         end; simpl; try reflexivity; try lia; try discriminate; try (intuition congruence).
 
 Lemma gp_eqb_bits a b : (a =? b) = true <-> forall i, 0 <= i -> Z.testbit a i = Z.testbit b i.
 Proof.
@@ -95,15 +104,15 @@ Theorem gen_contains_spec a b :
 Proof.
   unfold gen_contains. rewrite gp_eqb_bits. split.
   - intros H i Hi. destruct (Z.ltb_spec i 0) as [Hn|Hp]; [rewrite gp_neg_bit in Hi by lia; discriminate|].
-    specialize (H i Hp). revert H. gp_bits i. rewrite Hi. gp_bool.
-  - intros H i Hp. gp_bits i. specialize (H i). destruct (Z.testbit b i); [rewrite H by reflexivity|]; gp_bool.
+    specialize (H i Hp). revert H Hi. gp_bits i. gp_tauto.
+  - intros H i Hp. gp_bits i. specialize (H i). revert H. gp_tauto.
 Qed.
 
 Theorem gen_contains_player_spec a p : 0 <= p -> gen_contains_player a p = Z.testbit a p.
 Proof.
   intros Hp. unfold gen_contains_player. apply eq_true_iff_eq. rewrite gp_eqb_bits. split.
-  - intros H. specialize (H p Hp). revert H. gp_bits p. rewrite Z.eqb_refl. gp_bool.
-  - intros H i Hi. gp_bits i. destruct (Z.eqb_spec i p) as [->|]; [rewrite H|]; gp_bool.
+  - intros H. specialize (H p Hp). revert H. gp_bits p. rewrite ?Z.eqb_refl. gp_tauto.
+  - intros H i Hi. gp_bits i. destruct (Z.eqb_spec i p) as [->|]; [rewrite H|]; gp_tauto.
 Qed.
 
 Theorem gen_eq_spec a b : gen_eq a b = true <-> a = b.
@@ -114,9 +123,8 @@ Theorem gen_disjoint_spec a b :
 Proof.
   unfold gen_disjoint. rewrite gp_eqb_bits. split.
   - intros H i Hi. destruct (Z.ltb_spec i 0) as [Hn|Hp]; [apply gp_neg_bit; lia|].
-    specialize (H i Hp). revert H. gp_bits i. rewrite Hi, Z.bits_0. simpl. auto.
-  - intros H i Hp. gp_bits i. rewrite Z.bits_0. specialize (H i).
-    destruct (Z.testbit a i); [rewrite H by reflexivity|]; reflexivity.
+    specialize (H i Hp). revert H Hi. gp_bits i. rewrite ?Z.bits_0. gp_tauto.
+  - intros H i Hp. gp_bits i. rewrite ?Z.bits_0. specialize (H i). revert H. gp_tauto.
 Qed.
 
 (* exclude_coalition keeps exactly the coalitions sharing no player with `exclude` *)
@@ -125,9 +133,8 @@ Theorem gen_exclude_keep_spec c e :
 Proof.
   unfold gen_exclude_keep. rewrite gp_eqb_bits. split.
   - intros H i Hi. destruct (Z.ltb_spec i 0) as [Hn|Hp]; [apply gp_neg_bit; lia|].
-    specialize (H i Hp). revert H. gp_bits i. rewrite Hi, Z.bits_0. simpl. auto.
-  - intros H i Hp. gp_bits i. rewrite Z.bits_0. specialize (H i).
-    destruct (Z.testbit c i); [rewrite H by reflexivity|]; reflexivity.
+    specialize (H i Hp). revert H Hi. gp_bits i. rewrite ?Z.bits_0. gp_tauto.
+  - intros H i Hp. gp_bits i. rewrite ?Z.bits_0. specialize (H i). revert H. gp_tauto.
 Qed.
 
 (* ================= Part 2: closure: results are ids again ================= *)
